@@ -1,0 +1,24 @@
+//go:build verif
+
+package flows
+
+import (
+	"github.com/agglayer/aggkit/aggsender/db"
+	"github.com/agglayer/aggkit/aggsender/types"
+	"github.com/ethereum/go-ethereum/common"
+)
+
+// VerifNextParamsC13 computes (height, previous LER, first block, retry count) of the next certificate exactly
+// as the flow does: the real (*baseFlow).getLastSentBlockAndRetryCount and getNextHeightAndPreviousLER applied to
+// storage.GetLastSentCertificateHeader(). Thin wrapper for the /verif C13 harness.
+func VerifNextParamsC13(log types.Logger, storage db.AggSenderStorage, lerQuerier types.LERQuerier,
+	startL2Block uint64) (uint64, common.Hash, uint64, int, error) {
+	f := NewBaseFlow(log, nil, storage, nil, lerQuerier, NewBaseFlowConfig(0, startL2Block, false))
+	last, err := f.storage.GetLastSentCertificateHeader()
+	if err != nil {
+		return 0, common.Hash{}, 0, 0, err
+	}
+	previousToBlock, retryCount := f.getLastSentBlockAndRetryCount(last)
+	height, prevLER, err := f.getNextHeightAndPreviousLER(last)
+	return height, prevLER, previousToBlock + 1, retryCount, err
+}
